@@ -1,7 +1,13 @@
 
+val negb : bool -> bool
+
 type nat =
 | O
 | S of nat
+
+val fst : ('a1 * 'a2) -> 'a1
+
+val snd : ('a1 * 'a2) -> 'a2
 
 val length : 'a1 list -> nat
 
@@ -16,15 +22,24 @@ val compOpp : comparison -> comparison
 
 val add : nat -> nat -> nat
 
+module Nat :
+ sig
+  val eqb : nat -> nat -> bool
+ end
+
 val nth : nat -> 'a1 list -> 'a1 -> 'a1
 
 val rev : 'a1 list -> 'a1 list
 
 val map : ('a1 -> 'a2) -> 'a1 list -> 'a2 list
 
-val skipn : nat -> 'a1 list -> 'a1 list
+val forallb : ('a1 -> bool) -> 'a1 list -> bool
 
-val seq : nat -> nat -> nat list
+val combine : 'a1 list -> 'a2 list -> ('a1 * 'a2) list
+
+val firstn : nat -> 'a1 list -> 'a1 list
+
+val skipn : nat -> 'a1 list -> 'a1 list
 
 val repeat : 'a1 -> nat -> 'a1 list
 
@@ -95,6 +110,8 @@ module N :
 
   val coq_lor : n -> n -> n
 
+  val coq_land : n -> n -> n
+
   val ldiff : n -> n -> n
 
   val to_nat : n -> nat
@@ -120,10 +137,6 @@ module Z :
 
   val mul : z -> z -> z
 
-  val pow_pos : z -> positive -> z
-
-  val pow : z -> z -> z
-
   val compare : z -> z -> comparison
 
   val leb : z -> z -> bool
@@ -148,102 +161,191 @@ module Z :
 
   val div_eucl : z -> z -> z * z
 
-  val div : z -> z -> z
-
   val modulo : z -> z -> z
 
   val div2 : z -> z
 
   val shiftl : z -> z -> z
 
-  val shiftr : z -> z -> z
+  val coq_lor : z -> z -> z
 
   val coq_land : z -> z -> z
  end
 
 val wrap32 : z -> z
 
-val tABLE : z list
+val u64 : z -> z
 
-val iNV_TABLE : z list
+val split_at : z -> z list -> z list -> z list list * z list
 
-val enc_val0 : z
+val strip_cr : z list -> z list
 
-val enc_valb0 : z
+val records : z -> bool -> z list -> z list list
 
-val enc_shift : z
+val fold_default_width : z
 
-val enc_valb_add : z
+val fold_default_keep : bool
 
-val enc_loop_bound : z
+val fold_default_delims : z list
 
-val enc_mask : z
+val fold_s_sets_keep : bool
 
-val enc_valb_sub : z
+val fold_feeder_strip_cr : bool
 
-val enc_tail_bound : z
+val fold_collector_strip_cr : bool
 
-val enc_tail_shl : z
+val fu8_trail_bound : z
 
-val enc_tail_add : z
+val fu8_valid_lt : z
 
-val enc_tail_mask : z
+val fu8_valid_ge : z
 
-val enc_pad_mod : z
+val fu8_valid_le : z
 
-val pad_char : z
+val fu8_b1_lt : z
 
-val dec_val0 : z
+val fu8_b1_len : z
 
-val dec_valb0 : z
+val fu8_b2_len : z
 
-val dec_pad_char : z
+val fu8_b2_leadmask : z
 
-val dec_reject : z
+val fu8_b2_leadval : z
 
-val dec_shift : z
+val fu8_b2_m0 : z
 
-val dec_valb_add : z
+val fu8_b2_s0 : z
 
-val dec_out_bound : z
+val fu8_b2_m1 : z
 
-val dec_mask : z
+val fu8_b2_min : z
 
-val dec_valb_sub : z
+val fu8_b2_mblen : z
 
-val tbl : z -> z
+val fu8_b3_len : z
 
-val inv : z -> z
+val fu8_b3_leadmask : z
 
-val sel : z -> z -> z -> z
+val fu8_b3_leadval : z
 
-val enc_drain : nat -> z -> z -> (z list * z) option
+val fu8_b3_m0 : z
 
-val drain_fuel : nat
+val fu8_b3_s0 : z
 
-val enc_bytes : z list -> z -> z -> ((z list * z) * z) option
+val fu8_b3_m1 : z
 
-val enc_pad : nat -> z list
+val fu8_b3_s1 : z
 
-val base64_encode : z list -> z list option
+val fu8_b3_m2 : z
 
-type dres =
-| DOk of z list
-| DBadChar of z
-| DLengthError
+val fu8_b3_min : z
 
-val count_padding_rev : z list -> nat
+val fu8_b3_mblen : z
 
-val count_padding : z list -> nat
+val fu8_b4_len : z
 
-val dec_loop : z list -> z -> z -> dres
+val fu8_b4_leadmask : z
 
-val base64_decode : z list -> dres
+val fu8_b4_leadval : z
 
-val b64_alphabet : z list
+val fu8_b4_m0 : z
 
-val alpha : z -> z
+val fu8_b4_s0 : z
 
-val rfc4648 : z list -> z list
+val fu8_b4_m1 : z
 
-val strip_padding : z list -> z list
+val fu8_b4_s1 : z
+
+val fu8_b4_m2 : z
+
+val fu8_b4_s2 : z
+
+val fu8_b4_m3 : z
+
+val fu8_b4_min : z
+
+val fu8_b4_mblen : z
+
+val schar : z -> z
+
+val is_trail : z -> bool
+
+val is_valid_cp : z -> bool
+
+val byte_at : z list -> nat -> z
+
+val decode_utf8 : z list -> (z * z) option
+
+val dec_at : z list -> z -> (z * z) option
+
+val substr : z list -> z -> z -> z list
+
+type wopts = { w_width : z; w_keep : bool; w_delims : z list }
+
+val find_delimiter : z list -> z -> nat option
+
+val is_delim : z list -> z -> bool
+
+val set_nth : nat -> z -> z list -> z list
+
+type wres =
+| WOk of z list list * z list list
+| WBadUtf8
+| WFuel
+
+type wstate = { s_pos : z; s_last_cut : z; s_pds : z list; s_pfd : z;
+                s_lines : z list list; s_dels : z list list }
+
+val lookback : z list -> z -> z -> z
+
+type peekres =
+| PeekOk of z
+| PeekBad
+| PeekFuel
+
+val peek : nat -> z list -> wopts -> z -> z -> peekres
+
+type stepres =
+| StScan of wstate
+| StCut of wstate
+| StDone of wstate
+| StBad
+| StFuel
+
+val step : z list -> wopts -> wstate -> stepres
+
+val wrap_loop : nat -> z list -> wopts -> nat -> wstate -> stepres
+
+val init_state : wopts -> wstate
+
+val wrap_lines : z list -> wopts -> wres
+
+val c_str : z list -> z list
+
+val join : z list list -> z list list -> (z list * z list list) option
+
+val interleave : z list list -> z list list -> z list
+
+type tres =
+| TOk of z list
+| TBadUtf8
+| TFuel
+| TChildShort
+
+val cr_strip : bool -> z list -> z list
+
+val tool_lines : wopts -> (z list -> z list) -> bool -> z list list -> tres
+
+val foldfilter : wopts -> (z list -> z list) -> bool -> bool -> z list -> tres
+
+val foldfilter_tool : wopts -> (z list -> z list) -> z list -> tres
+
+val count_cps : nat -> z list -> nat option
+
+val utf8_valid : z list -> bool
+
+val all_delims : nat -> z list -> z list -> bool
+
+val width_ok : z -> z list -> bool
+
+val check_wrap : z list -> wopts -> z list list -> z list list -> bool
